@@ -162,7 +162,7 @@ class Engine(EngineBase):
             "deep": rng.random() < 0.35,
             "dry_run": rng.random() < (0.45 if P == "C15" else 0.1),
             "parallel": rng.choice([False, False, 2, True]) if P == "C15" else rng.choice([False, False, False, 2]),
-            "preserve": rng.choice([False, False, False, False, True, "perms"]),
+            "preserve": rng.choice([False, False, False, False, True, "perms", "all"]),
             "collect_stats": rng.random() < 0.15,
         }
         if ds == "custom_raise":
@@ -416,6 +416,8 @@ class Run:
             kw.update(preserve_permissions=True)
         elif o["preserve"]:
             kw.update(preserve_permissions=True, preserve_times=True)
+            if o["preserve"] == "all":
+                kw.update(preserve_owner=True)
         strategy = make_strategy(signac, o["strategy"])
         doc_sync = make_doc_sync(signac, o["doc_sync"])
         entry = sc["entry"]
